@@ -1,8 +1,8 @@
-import FitModel.Listener
+import FitModel.ListenerK
 import Driver.FileDef
 -- @family listener Drv.hListener
 namespace Drv
-open Fit.FileDef Fit.Listener
+open Fit.FileDef Fit.ListenerK
 
 def showCell : FileCell → String
   | none => "[nil]"
@@ -12,10 +12,47 @@ def showCell : FileCell → String
 message channel + one-slice pool, `Fit.Listener.poolSize`) -/
 def parseBuf (s : String) : Option Nat := if s == "d" then some 128 else s.toNat?
 
-def parseCmd (s : String) : Option (Cmd Msg) :=
+/-- one listener option after the buffer size: `P<k>=<t>,…` = `m := PredefinedFileSet(); m[k] = constructor of the predefined
+file type t` (`-`: no constructor) `…; WithFileSets(m)`; `W<k>=<t>,…` = the same starting from an empty map; `F<k>=<t>` =
+`WithFileFunc(k, constructor of t)`. Each is a function of the file sets built so far (options apply in order). -/
+def parseEntry (e : String) : Option (Nat × Option FileType) :=
+  match e.splitOn "=" with
+  | [k, t] => do
+    let kk ← k.toNat?
+    if kk > 255 || toString kk != k then none
+    if t == "-" then some (kk, none) else do
+      let tt ← t.toNat?
+      if toString tt != t then none
+      let T ← fileTypeOf tt
+      some (kk, some T)
+  | _ => none
+
+def parseEntries (s : String) : Option (List (Nat × Option FileType)) :=
+  if s.isEmpty then some [] else (s.splitOn ",").mapM parseEntry
+
+def parseOpt (o : String) : Option (FileSets → FileSets) :=
+  if let some r := stripPrefix? o "P" then
+    (parseEntries r).map fun es => fun _ => es.foldl (fun fs e => withFileFunc fs e.1 e.2) defaultSets
+  else if let some r := stripPrefix? o "W" then
+    (parseEntries r).map fun es => fun _ => withFileSets es
+  else if let some r := stripPrefix? o "F" then
+    (parseEntry r).map fun e => fun fs => withFileFunc fs e.1 e.2
+  else none
+
+/-- `<buf>[+<opt>]…` → buffer size and the resulting file sets (the options start from the defaults: `NewListener` and
+`Reset` both begin with `defaultOptions()`) -/
+def parseConf (s : String) : Option (Nat × FileSets) :=
+  match s.splitOn "+" with
+  | [] => none
+  | b :: opts => do
+    let n ← parseBuf b
+    let fs ← opts.mapM parseOpt
+    some (n, fs.foldl (fun acc f => f acc) defaultSets)
+
+def parseCmd (s : String) : Option (Cmd Msg FileSets) :=
   if s == "F" then some .file
   else if s == "C" then some .close
-  else if let some r := stripPrefix? s "R" then (parseBuf r).map .reset
+  else if let some r := stripPrefix? s "R" then (parseConf r).map fun c => .reset c.1 c.2
   else if let some r := stripPrefix? s "m" then (parseMsg r).map .onMesg
   else none
 
@@ -36,15 +73,15 @@ def picker (seed : Nat) : Nat → Bool :=
 def hListener : Handler := fun r =>
   match r.args with
   | _g :: s :: n :: toks =>
-    match (stripPrefix? s "s").bind String.toNat?, (stripPrefix? n "n").bind parseBuf, parseAll parseCmd toks with
-    | some seed, some N, some script =>
+    match (stripPrefix? s "s").bind String.toNat?, (stripPrefix? n "n").bind parseConf, parseAll parseCmd toks with
+    | some seed, some (N, k0), some script =>
       match r.mode with
       | .model =>
         let fuel := 200 + 12 * script.length + 4 * (script.length + 1) * 130
-        let st := run processMesg (none : FileCell) (picker seed) fuel 0 (initSt none N script)
+        let st := run processMesg (none : FileCell) (picker seed) fuel 0 (initSt none N k0 script)
         let out := st.results.map showCell
         " ".intercalate (out ++ [if isFin st.p then "end" else if (stepP none st).isNone && (stepC processMesg st).isNone then "deadlock" else "fuel"])
-      | .spec => " ".intercalate ((seqRun processMesg none true none script).map showCell ++ ["end"])
+      | .spec => " ".intercalate ((seqRun processMesg none k0 true none script).map showCell ++ ["end"])
       | .prop => "n/a"
       | .kf => "-"   -- KF-C14-1 (buffer size 0 deadlocked, F15) is fixed in /repo: no known-finding class left in this family
     | _, _, _ => if r.mode == .model then "bad-op" else if r.mode == .kf then "-" else "n/a"
